@@ -1,0 +1,9 @@
+//go:build verif
+
+package cert
+
+// Read-only export for the verification harness (property C11): one call of
+// loadPath, the loader behind PathSource, on a certificate directory.
+func VerifLoadPath(root string) (map[string][]byte, error) {
+	return loadPath(root)
+}
